@@ -3,7 +3,7 @@
    Rust implementation executes between calls of thread::switch() (see Lang/ThreadOps.v,
    Lang/SyncOps.v, Lang/SyncOps2.v).  No proofs in this file. *)
 From Coq Require Import List NArith Bool Arith.
-From SV Require Import Clock.VClock Prim.Objects Prim.Atomic Engine.Exec.
+From SV Require Import Clock.VClock Prim.Objects Prim.Atomic Prim.Tls Engine.Exec.
 From SV Require Export Lang.Code Lang.ThreadOps.
 From SV Require Import Prim.Semaphore Lang.SyncOps Lang.SyncOps2 Lang.AsyncOps.
 Import ListNotations.
@@ -47,7 +47,11 @@ Inductive op :=
 | PDetach (h : nat)                (* drop(handle) *)
 | PAYield                          (* future::yield_now().await (block_on(yield_now()) in a thread) *)
 | PBlockOn (body : nat)            (* future::block_on(async body) *)
-| PIsFinished (h : nat).
+| PIsFinished (h : nat)
+| PTlsWith (key : nat) (add : N)   (* KEY.try_with(|c| { let old = c.get(); c.set(old + add); old }) *)
+| PThreadId                        (* thread::current().id(), and whether thread::current().name() is the name given at spawn *)
+| PScope (z : nat) (body : nat)    (* thread::scope(|s| body): the body runs inline, its PScopeSpawn use `s` *)
+| PScopeSpawn (z : nat) (body : nat).  (* s.spawn(body); the ScopedJoinHandle becomes the task's next handle *)
 
 (* result tags used in EvOp records; the harness prints the same numbers *)
 Definition TAG_SPAWN : N := 1.  Definition TAG_JOIN : N := 2.   Definition TAG_YIELD : N := 3.
@@ -63,6 +67,9 @@ Definition TAG_BARRIER : N := 27. Definition TAG_CALLONCE : N := 28. Definition 
 Definition TAG_INIT : N := 30.
 Definition TAG_ASPAWN : N := 31. Definition TAG_AWAIT : N := 32. Definition TAG_ABORT : N := 33. Definition TAG_DETACH : N := 34.
 Definition TAG_AYIELD : N := 35. Definition TAG_BLOCKON : N := 36. Definition TAG_ISFINISHED : N := 37.
+Definition TAG_TLS : N := 38. (* TAG_TLSDROP = 39: Lang/ThreadOps.v *) Definition TAG_TID : N := 40. Definition TAG_SCOPE : N := 41.
+(* the value a thread's closure returns (and join hands over): a function of the thread's id *)
+Definition thread_value (t : nat) : N := (1000 + N.of_nat t)%N.
 
 (* ---- whole programs ---- *)
 Definition nth_handle (hs : list nat) (h : nat) : option nat := nth_error hs h.
@@ -111,10 +118,26 @@ Fixpoint detach_all (ahs : list nat) (k : code) : code :=
   | t :: r => atomic_u (fun e st => detach_handle e st t) (detach_all r k)
   end.
 
-Definition thread_fin (gs : list (nat * bool)) (ahs : list nat) : code :=
-  Log TAG_END [] (drop_guards true gs (detach_all ahs thread_epilogue)).
+Definition thread_fin (tls : nat) (dtor : nat -> code -> code) (gs : list (nat * bool)) (ahs : list nat) : code :=
+  Log TAG_END [] (drop_guards true gs (detach_all ahs (thread_epilogue_d tls dtor))).
 
-(* the end of a spawned future: locals dropped, then Wrapper::finish(Ok(value)); no thread_fn epilogue *)
+Definition scoped_fin (z tls : nat) (dtor : nat -> code -> code) (gs : list (nat * bool)) (ahs : list nat) : code :=
+  Log TAG_END [] (drop_guards true gs (detach_all ahs (scoped_epilogue_d z tls dtor))).
+
+(* the end of scope(): the main task waits for the scoped threads still running *)
+Definition scope_end (z : nat) (k : code) : code :=
+  atomic_b (fun e st => match me e, scope_get st z with
+                        | Some m, Some (r, mt, _) =>
+                          if Nat.eqb r 0 then Some (e, st, false)
+                          else match e_block e m false with
+                               | Some e' => Some (e', set_obj st z (OScope r mt true), true)
+                               | None => None end
+                        | _, _ => None end)
+    (fun blk => switch_if blk k).
+
+(* the end of a spawned future: locals dropped, then Wrapper::finish(Ok(value)); no thread_fn epilogue.
+   (Wrapper::finish also pops the task's thread-locals; the programs of the correspondence check use thread-locals
+   in threads only, and this loop is not modelled for futures.) *)
 Definition async_fin (jt : nat) (value : N) (gs : list (nat * bool)) (ahs : list nat) : code :=
   Log TAG_END [] (drop_guards true gs (detach_all ahs
     (atomic_u (fun e st => wrapper_finish e st jt (Some value)) Ret))).
@@ -136,15 +159,18 @@ Fixpoint comp (fuel : nat) (jt : nat) (bodies : list (list op)) (b : nat) (ctx :
   match fuel with
   | O => Ret
   | S f =>
+    let tls := S jt in
+    let dtor := fun (d : nat) (k : code) =>
+                  comp f jt bodies d CtxBlockOn (fun gs' ahs' => drop_guards true gs' (detach_all ahs' k)) [] in
     (fix go (ops : list op) (hs : list nat) (js : list nat) (gs : list (nat * bool)) (ahs : list (nat * bool)) : code :=
        match ops with
        | [] => fin gs (live_handles ahs)
        | o :: r =>
          match o with
-         | PSpawn j => Switch (SpawnNow (comp f jt bodies j CtxBlockOn thread_fin []) (fun tid => Log TAG_SPAWN [N.of_nat tid] (go r (hs ++ [tid]) js gs ahs)))
+         | PSpawn j => Switch (SpawnNow (comp f jt bodies j CtxBlockOn (thread_fin tls dtor) []) (fun tid => Log TAG_SPAWN [N.of_nat tid] (go r (hs ++ [tid]) js gs ahs)))
          | PJoin h => match nth_handle hs h with
                       | Some t => if existsb (Nat.eqb h) js then Panic      (* the JoinHandle was consumed *)
-                                  else join_code t (Log TAG_JOIN [N.of_nat t] (go r hs (h :: js) gs ahs))
+                                  else join_code t (Log TAG_JOIN [N.of_nat t; thread_value t] (go r hs (h :: js) gs ahs))
                       | None => Panic end
          | PYield => yield_code (Log TAG_YIELD [] (go r hs js gs ahs))
          | PPark => park_code (Log TAG_PARK [] (go r hs js gs ahs))
@@ -238,11 +264,38 @@ Fixpoint comp (fuel : nat) (jt : nat) (bodies : list (list op)) (b : nat) (ctx :
          | PIsFinished h => match nth_error ahs h with
                             | Some (t, true) => atomic_b (fun e st => is_finished_handle e st t) (fun fin_ => Log TAG_ISFINISHED [b2n fin_] (go r hs js gs ahs))
                             | _ => Panic end
+         | PTlsWith key add =>
+           Atomic (fun e st => match me e with
+                               | Some m => match tls_with st tls m key add with
+                                           | Some (st', status, old) => Some (e, st', [n_of_tls status; old])
+                                           | None => None end
+                               | None => None end)
+             (fun a => Log TAG_TLS (N.of_nat key :: a) (go r hs js gs ahs))
+         | PThreadId =>
+           Atomic (fun e st => match me e with Some m => Some (e, st, [N.of_nat m; 1%N]) | None => None end)
+             (fun a => Log TAG_TID a (go r hs js gs ahs))
+         | PScope z j =>
+           atomic_u (fun e st => match me e, get_obj st z with
+                                 | Some m, Some (OScope _ _ _) => Some (e, set_obj st z (OScope 0 m false))
+                                 | _, _ => None end)
+             (Log TAG_SCOPE [N.of_nat z]
+                (comp f jt bodies j ctx
+                   (fun gs' ahs' => drop_guards true gs' (detach_all ahs' (scope_end z (Log TAG_SCOPE [] (go r hs js gs ahs)))))
+                   (gs ++ outer)))
+         | PScopeSpawn z j =>
+           atomic_u (fun e st => match scope_get st z with
+                                 | Some (rn, m, w) => Some (e, set_obj st z (OScope (S rn) m w))
+                                 | None => None end)
+             (Switch (SpawnNow (comp f jt bodies j CtxBlockOn (scoped_fin z tls dtor) [])
+                        (fun tid => Log TAG_SPAWN [N.of_nat tid] (go r (hs ++ [tid]) js gs ahs))))
          end
        end) (nth b bodies []) [] [] [] []
   end.
 
-Definition compile (jt : nat) (bodies : list (list op)) : code := comp (S (length bodies)) jt bodies 0 CtxBlockOn thread_fin [].
+Definition top_dtor (jt : nat) (bodies : list (list op)) (d : nat) (k : code) : code :=
+  comp (S (length bodies)) jt bodies d CtxBlockOn (fun gs' ahs' => drop_guards true gs' (detach_all ahs' k)) [].
+Definition compile (jt : nat) (bodies : list (list op)) : code :=
+  comp (S (S (length bodies))) jt bodies 0 CtxBlockOn (thread_fin (S jt) (top_dtor jt bodies)) [].
 
 (* ---- the scripted scheduler used by the correspondence check ---- *)
 Record script_state := mkScript { sc_script : list (option nat); sc_rnd : N }.
@@ -261,14 +314,14 @@ Definition scripted : scheduler script_state :=
 
 Definition run_prog (fuel : nat) (ms : max_steps) (objs : store) (bodies : list (list op)) (script : list (option nat)) (rseed : N)
   : world * script_state * outcome :=
-  run_exec scripted ms fuel (compile (length objs) bodies) (objs ++ [OJoins []]) (mkScript script rseed).
+  run_exec scripted ms fuel (compile (length objs) bodies) (objs ++ [OJoins []; OTls []]) (mkScript script rseed).
 
 (* check_dfs on a program: every execution's recorded schedule, in order *)
 From SV Require Import Engine.Runner Sched.Dfs.
 Definition run_prog_dfs (iters efuel : nat) (ms : max_steps) (max_iter : option nat) (allow_random_data : bool) (objs : store) (bodies : list (list op))
   : list (world * Exec.outcome) * dfs_state * bool :=
-  runner_loop dfs_sched ms iters efuel (compile (length objs) bodies) (objs ++ [OJoins []]) (dfs_initial max_iter allow_random_data).
+  runner_loop dfs_sched ms iters efuel (compile (length objs) bodies) (objs ++ [OJoins []; OTls []]) (dfs_initial max_iter allow_random_data).
 
 (* the count returned by a run of a program with an iteration budget and a time limit (clock readings as a list) *)
 Definition prog_count_t (expired : list bool) (budget efuel : nat) (objs : store) (bodies : list (list op)) : nat :=
-  run_count_t expired budget efuel (compile (length objs) bodies) (objs ++ [OJoins []]).
+  run_count_t expired budget efuel (compile (length objs) bodies) (objs ++ [OJoins []; OTls []]).
